@@ -634,11 +634,22 @@ def gen_tied(rng, shared_bias=0.0):
             w0 = g.tensor(gr.name("w"), [o, f], data=wdata)
             shared_buf = g.sg.tensors[w0].buffer
         else:
-            w0 = g.tensor(gr.name("w"), [o, f], buffer=shared_buf)
+            if rng.random() < 0.25:
+                # the tied weight carries the SAME NAME in both subgraphs (the library must refuse duplicate names model-wide)
+                w0 = g.tensor(first_w_name, [o, f], buffer=shared_buf)
+                gr.n += 1
+                info["tags"].add("tied_same_name_across_subgraphs")
+            else:
+                w0 = g.tensor(gr.name("w"), [o, f], buffer=shared_buf)
             info["tags"].add("tied_across_subgraphs")
+        if si == 0:
+            first_w_name = g.sg.tensors[w0].name.decode()
         k = rng.randint(2, 3)
         cur = x
         outs = []
+        if rng.random() < 0.12:
+            outs.append(w0)   # the weight itself is also exported as a graph output
+            info["tags"].add("tied_weight_is_output")
         sb = rng.random() < shared_bias
         b_shared = gr.const([o], kind="normal", base="b") if sb else None
         if sb:
